@@ -39,7 +39,7 @@ class Job:
                  cbmc=(), timeout=300, mem_gb=8, kind="proof", tiers=("quick", "thorough"),
                  defines=(), fuc=(), assumes=(), solver=None, rec=(), no_canary=False,
                  restrict_fp=(), safety=None, note="", r1=None, r2=None, nondet_static=False,
-                 expect_unwind_fail=False, drop_checks=(), replace_calls=(), native=None, read_hooks=(), rewrites=(), unknown_ok=()):
+                 expect_unwind_fail=False, drop_checks=(), replace_calls=(), native=None, read_hooks=(), rewrites=(), unknown_ok=(), degraded_unwind=4):
         self.name = name            # job id, unique in the unit
         self.tu = tu                # file under contracts/
         self.harness = harness      # entry function
@@ -69,6 +69,7 @@ class Job:
         self.native = native
         self.read_hooks = list(read_hooks)   # [(field, hook_fn)]: rule R4, see preprocess()
         self.unknown_ok = [re.compile(x) for x in unknown_ok]   # obligations CBMC leaves UNKNOWN behind a benign-listed failed check
+        self.degraded_unwind = int(degraded_unwind)   # unwinding bound of the bounded search that replaces a proof whose loop contracts no longer fit
         self.rewrites = list(rewrites)       # [(from, to, expected_count)]: job-specific must-fire rewrites (a bounded stand-in must say so)
 
 
@@ -295,7 +296,7 @@ def pipeline(job, trace_props=None, tag=""):
         out_txt = os.path.join(wd, "result.json" if trace_props else "result.txt")
         cmd = ["cbmc", cur, "--verbosity", "8", "--drop-unused-functions", "--object-bits", "12"] + job.safety + job.cbmc
         if degraded:
-            cmd = [c for c in cmd if c != "--unwinding-assertions"] + ["--unwind", "4"]
+            cmd = [c for c in cmd if c != "--unwinding-assertions"] + ["--unwind", str(job.degraded_unwind)]
         if job.solver:
             cmd += ["--" + job.solver]
         if trace_props:
@@ -518,7 +519,8 @@ def run_unit(pid, jobs, tier, seed=0, only=None):
             def spec_obl(o):
                 pr = o.prop or ""
                 return (o.func == job.harness or ".precondition." in pr or ".postcondition." in pr or
-                        o.desc.startswith("GUARANTEE") or ".assertion." in pr)
+                        o.desc.startswith("GUARANTEE") or
+                        (".assertion." in pr and (o.func in job.fuc or (o.func or "").startswith("verif_"))))
             bad = [o for o in rest if o.status == "FAILURE" and "unwinding assertion" not in o.desc and spec_obl(o)
                    and not any(p_ in ("*", pid) and rx.search(o.key()) for (p_, rx, r_) in benign)
                    and not any(p_ == pid and rx.search(o.key()) for (p_, rx, t_) in known)]
